@@ -799,6 +799,14 @@ def m_is_finite(it, st, callee, args, dest_tid, site):
     import math
     return [(st, X.binop('lt', X.fcall('abs', [args[0]]), X.const(args[0].ty, math.inf)))]
 
+@model('core::f32::<impl f32>::is_normal', 'core::f64::<impl f64>::is_normal', doc='MIN_POSITIVE <= |x| < inf (false for NaN, zero, subnormals)')
+def m_is_normal(it, st, callee, args, dest_tid, site):
+    import math
+    ty = args[0].ty
+    a = X.fcall('abs', [args[0]])
+    tiny = 2.0 ** -126 if ty[1] == 32 else 2.0 ** -1022
+    return [(st, X.binop('and', X.binop('ge', a, X.const(ty, tiny)), X.binop('lt', a, X.const(ty, math.inf))))]
+
 @model('core::f32::<impl f32>::is_infinite', 'core::f64::<impl f64>::is_infinite', doc='|x| == inf')
 def m_is_infinite(it, st, callee, args, dest_tid, site):
     import math
